@@ -157,6 +157,10 @@ Inductive case :=
          (impl : list (tbl * bool))
 (* one manual config pushed by the real watchKV against the fake Consul's KV store *)
 | CKv (pairs : list (str * str)) (impl : str)
+(* a round of the real Watch loop during which the fake Consul answered 500 (health query, or
+   the catalog lookup of the service names [failing]): was a config pushed while that lasted? *)
+| CFail (health_err : bool) (failing : list str) (prefix : str) (status : list str) (strict : bool)
+        (checks : list hcheck) (catalog : list centry) (pushed : bool)
 (* end to end: the text pushed by the real backend for the state (checks, rcat) and the table the
    real route.NewTable builds from it, against the composed model of Model/RegistryTable.v *)
 | CE2E (env : env_t) (prefix : str) (urls : list (str * option str)) (badglobs : list str)
@@ -214,6 +218,16 @@ Definition check_case (c : case) : N :=
                     (match flat_map (fun p => [[]; s_kv_sep ++ fst p] ++ split_byte (trim_space (snd p)) 10) pairs with
                      | [] => [[]] | _ :: r => r end) in
       verdict same spec None (negb (Nat.eqb (length pairs) 0))
+  | CFail health_err failing prefix status strict checks catalog pushed =>
+      let o := if health_err then ObsHealthErr else ObsState checks catalog failing in
+      let same := Bool.eqb pushed (is_ok (observe_config prefix status strict o)) in
+      (* spec: a config built without the services whose lookup failed would take the routes of
+         their healthy instances out of the table, so none may be pushed *)
+      let needed := existsb (fun c => is_service_check c && tagged prefix c && negb (beq (c_sname c) [])
+                                      && healthy_b checks status strict (c_node c) (c_sid c)
+                                      && existsb (beq (c_sname c)) failing) checks in
+      let spec := if health_err || needed then negb pushed else pushed in
+      verdict same spec None (health_err || needed)
   | CE2E env prefix urls bad status strict checks rcat itext itbl =>
       let canon := canon_of urls in
       let gl := glob_of bad in
